@@ -475,6 +475,27 @@ def m_seq_pop(ex, d, args, kwargs, st, sink, node):
             yield s2, val
 
 
+def m_seq_remove(ex, d, args, kwargs, st, sink, node):
+    """list.remove(x): the first element equal to x goes, ValueError when there is none (element types whose == is value/identity equality)"""
+    recv = d.recv
+    if recv.ty.elem.kind not in ("ref", "str", "int", "bool", "bytes"):
+        raise Unsupported(f"list.remove on elements of {recv.ty.elem!r}")
+    e = coerce(args[0], recv.ty.elem).t
+    n = z3.Length(recv.v)
+    i = z3.IndexOf(recv.v, z3.Unit(e), 0)
+    for s2, found in ex.fork(st, i >= 0):
+        if not found:
+            ex.raise_(s2, sink, "ValueError", origin=f"list.remove line {getattr(node, 'lineno', '?')}")
+        else:
+            new = z3.Concat(z3.SubSeq(recv.v, 0, i), z3.SubSeq(recv.v, i + 1, n - i - 1))
+            # lemma of sequences (differentially checked by axcheck): dropping the first occurrence of e leaves every other value's membership as it was
+            from .core import fresh_name
+            q = z3.Const(fresh_name("qrm"), recv.ty.elem.sorts()[0])
+            s2.assume(z3.ForAll([q], z3.Implies(q != e, z3.Contains(new, z3.Unit(q)) == z3.Contains(recv.v, z3.Unit(q))), patterns=[z3.Contains(new, z3.Unit(q))]))
+            ex.write_back(s2, recv.loc, SV(recv.ty, new))
+            yield s2, NONEV
+
+
 def m_str_find(ex, d, args, kwargs, st, sink, node):
     (sub,) = args
     yield st, mk_int(z3.IndexOf(d.recv.v, sub.v, 0))
@@ -567,7 +588,16 @@ def m_map_pop(ex, d, args, kwargs, st, sink, node):
 
 def m_set_add(ex, d, args, kwargs, st, sink, node):
     recv = d.recv
-    e = coerce(args[0], recv.ty.elem).t
+    x = args[0]
+    if x.ty.kind == "opt" and recv.ty.elem.kind != "opt":
+        for s2, isnone in ex.fork(st, x.v[0]):
+            if isnone:
+                raise Unsupported("None added to a set of " + repr(recv.ty.elem))
+            e = coerce(x.v[1], recv.ty.elem).t
+            ex.write_back(s2, recv.loc, SV(recv.ty, z3.Store(recv.v, e, True)))
+            yield s2, NONEV
+        return
+    e = coerce(x, recv.ty.elem).t
     ex.write_back(st, recv.loc, SV(recv.ty, z3.Store(recv.v, e, True)))
     yield st, NONEV
 
@@ -586,6 +616,7 @@ def m_set_remove(ex, d, args, kwargs, st, sink, node):
 METHODS = {
     ("seq", "append"): m_seq_append,
     ("seq", "pop"): m_seq_pop,
+    ("seq", "remove"): m_seq_remove,
     ("str", "find"): m_str_find,
     ("bytes", "find"): m_str_find,
     ("str", "startswith"): m_str_startswith,
